@@ -64,7 +64,8 @@ func init() {
 // a private tmux server
 
 type tmxServer struct {
-	sock string
+	sock string   // socket name (-L), or the path of the socket (-S) when sel is "-S"
+	sel  string   // "-L" normally; "-S" when TMUX_TMPDIR/tmux-UID/name would not fit into a socket address
 	env  []string
 	dog  *exec.Cmd
 	once sync.Once
@@ -95,17 +96,17 @@ func tmxEnviron(tmuxTmp, home, path string) []string {
 func (s *tmxServer) run(args ...string) (string, error) {
 	cx, cancel := context.WithTimeout(context.Background(), 10*time.Second)
 	defer cancel()
-	cmd := exec.CommandContext(cx, "tmux", append([]string{"-u", "-L", s.sock}, args...)...)
+	cmd := exec.CommandContext(cx, "tmux", append([]string{"-u", s.sel, s.sock}, args...)...)
 	cmd.Env = s.env
 	out, err := cmd.CombinedOutput()
 	return strings.TrimRight(string(out), "\n"), err
 }
 
 // tmxStart creates the server with one detached session "main" of the given size running sh.
-func tmxStart(sock string, env []string, cols, rows int, life time.Duration) (*tmxServer, error) {
-	s := &tmxServer{sock: sock, env: env}
+func tmxStart(sel, sock string, env []string, cols, rows int, life time.Duration) (*tmxServer, error) {
+	s := &tmxServer{sock: sock, sel: sel, env: env}
 	// the watchdog outside this process first: whatever happens to the harness, the server dies
-	dog := exec.Command("sh", "-c", fmt.Sprintf("sleep %d; exec tmux -L '%s' kill-server", int(life.Seconds())+20, sock))
+	dog := exec.Command("sh", "-c", fmt.Sprintf("sleep %d; exec tmux %s '%s' kill-server", int(life.Seconds())+20, sel, sock))
 	dog.Env = env
 	dog.SysProcAttr = &syscall.SysProcAttr{Setsid: true}
 	if err := dog.Start(); err == nil {
@@ -114,7 +115,7 @@ func tmxStart(sock string, env []string, cols, rows int, life time.Duration) (*t
 	}
 	cx, cancel := context.WithTimeout(context.Background(), 15*time.Second)
 	defer cancel()
-	cmd := exec.CommandContext(cx, "tmux", "-u", "-L", sock, "-f", "/dev/null", "new-session", "-d", "-s", "main",
+	cmd := exec.CommandContext(cx, "tmux", "-u", sel, sock, "-f", "/dev/null", "new-session", "-d", "-s", "main",
 		"-x", strconv.Itoa(cols), "-y", strconv.Itoa(rows), "sh")
 	cmd.Env = env
 	if out, err := cmd.CombinedOutput(); err != nil {
@@ -294,11 +295,11 @@ func tmxAttach(s *tmxServer, mode string, cols, rows int, home string) (*tmxClie
 	var cmd *exec.Cmd
 	switch mode {
 	case "control":
-		cmd = exec.Command("tmux", "-u", "-L", s.sock, "-CC", "attach-session", "-t", "main")
+		cmd = exec.Command("tmux", "-u", s.sel, s.sock, "-CC", "attach-session", "-t", "main")
 	case "binary":
-		cmd = exec.Command(filepath.Join(e2eBinDir, "trzsz"), "tmux", "-u", "-L", s.sock, "attach-session", "-t", "main")
+		cmd = exec.Command(filepath.Join(e2eBinDir, "trzsz"), "tmux", "-u", s.sel, s.sock, "attach-session", "-t", "main")
 	default:
-		cmd = exec.Command("tmux", "-u", "-L", s.sock, "attach-session", "-t", "main")
+		cmd = exec.Command("tmux", "-u", s.sel, s.sock, "attach-session", "-t", "main")
 	}
 	cmd.Env = s.env
 	ptmx, err := pty.StartWithSize(cmd, &pty.Winsize{Rows: uint16(rows), Cols: uint16(cols)})
@@ -629,7 +630,7 @@ func (r *tmxRunner) transfer(x tmxXfer) *tmxXferResult {
 	deadline := 30 * time.Second
 	stopDelay := 400 * time.Millisecond
 	if cl.mode == "control" {
-		stopDelay = 20 * time.Millisecond // over the tunnel 24 MiB take a quarter of a second
+		stopDelay = 0 // over the tunnel 24 MiB take a quarter of a second
 	}
 	// the transfer starts
 	if cl.mode == "binary" {
@@ -827,6 +828,30 @@ func tmxDecodeControl(s string) string {
 	return out.String()
 }
 
+// tmxShortDir: a unix socket path holds 107 bytes.  If dir plus what tmux appends is longer, a symbolic link to dir is
+// made in the nearest ancestor that is short enough (still inside the private temporary tree) and returned instead.
+func tmxShortDir(dir string, extra int) string {
+	if len(dir)+extra <= 100 {
+		return dir
+	}
+	anc := filepath.Dir(dir)
+	for len(anc)+24+extra > 100 && len(anc) > 1 {
+		anc = filepath.Dir(anc)
+	}
+	if len(anc) <= 1 || !strings.HasPrefix(dir, anc+"/") {
+		return ""
+	}
+	link := filepath.Join(anc, fmt.Sprintf("tmxl%d", os.Getpid()))
+	if _, err := os.Lstat(link); err != nil {
+		if err := os.Symlink(dir, link); err != nil {
+			if _, err2 := os.Lstat(link); err2 != nil {
+				return ""
+			}
+		}
+	}
+	return link
+}
+
 func tmxRun(root string, idx int, sc *tmxScn) (res *tmxResult) {
 	res = &tmxResult{scn: sc}
 	t0 := time.Now()
@@ -848,12 +873,20 @@ func tmxRun(root string, idx int, sc *tmxScn) (res *tmxResult) {
 	// the stand-in for the file chooser of the trzsz binary
 	os.WriteFile(filepath.Join(fake, "zenity"), []byte("#!/bin/sh\ncat \"$HOME/zenity.answer\" 2>/dev/null || exit 1\n"), 0755)
 	sock := fmt.Sprintf("tmx%d-%d", os.Getpid(), idx)
-	if n := len(filepath.Join(tmuxTmp, "tmux-0", sock)); n > 100 {
-		res.err = fmt.Sprintf("socket path too long (%d)", n)
-		return
+	sel := "-L"
+	sockPath := filepath.Join(tmuxTmp, fmt.Sprintf("tmux-%d", os.Getuid()), sock)
+	if len(sockPath) > 100 {
+		// tmux resolves TMUX_TMPDIR to its real path: name the socket through a short symbolic link instead (-S)
+		short := tmxShortDir(tmuxTmp, len(sock)+1)
+		if short == "" {
+			res.err = "socket path too long"
+			return
+		}
+		sel, sock = "-S", filepath.Join(short, sock)
+		sockPath = sock
 	}
 	env := tmxEnviron(tmuxTmp, home, fake+":"+e2eBinDir+":"+os.Getenv("PATH"))
-	srv, err := tmxStart(sock, env, sc.cols, sc.rows, 75*time.Second)
+	srv, err := tmxStart(sel, sock, env, sc.cols, sc.rows, 75*time.Second)
 	if err != nil {
 		res.err = "tmux did not start: " + err.Error()
 		return
@@ -861,7 +894,7 @@ func tmxRun(root string, idx int, sc *tmxScn) (res *tmxResult) {
 	defer func() {
 		srv.kill()
 		res.leftAlive = srv.alive()
-		sp := filepath.Join(tmuxTmp, fmt.Sprintf("tmux-%d", os.Getuid()), sock)
+		sp := sockPath
 		os.Remove(sp) // tmux leaves the socket file of a killed server behind
 		_, e := os.Stat(sp)
 		res.sockGone = e != nil
@@ -1054,6 +1087,11 @@ func genTmuxE2E(c *ctx, want func(*tmxScn) bool) {
 		return
 	}
 	defer os.RemoveAll(root)
+	defer func() {
+		if l := tmxShortDir(filepath.Join(root, "t"), 101); l != "" && l != filepath.Join(root, "t") {
+			os.Remove(l)
+		}
+	}()
 	if why := tmxProbe(root); why != "" {
 		c.count("note:tmux-unavailable:" + why)
 		return
@@ -1082,6 +1120,9 @@ func genTmuxE2E(c *ctx, want func(*tmxScn) bool) {
 		if r.err != "" {
 			nerr++
 			c.count("note:harness:" + strings.SplitN(r.err, ":", 2)[0])
+			if os.Getenv("TMX_DEBUG") != "" {
+				fmt.Fprintf(os.Stderr, "TMX-ERR %s: %s\n", r.scn.name, r.err)
+			}
 		}
 	}
 	if nerr == len(results) {
@@ -1226,7 +1267,9 @@ func tmxJudge(c *ctx, r *tmxResult, junkT *c16Real) {
 			}
 			fallthrough
 		case "stop-api", "stop-key", "sigint":
-			if !strings.Contains(x.paneOwn, "Stopped") {
+			if len(x.notes) > 0 && strings.Contains(x.paneOwn, "Saved ") {
+				c.count("stop:came-too-late-the-transfer-had-finished") // under load: nothing to judge
+			} else if !strings.Contains(x.paneOwn, "Stopped") {
 				c.violate(tmxKey("stop-not-reported", kind), "the transfer was stopped but the pane does not say so", detail(""))
 			}
 		case "fail-dir":
